@@ -60,7 +60,10 @@ class C01(BaseMonitor):
                 self.history = []
             self.history.append(prev_value)
             self.history = self.history[-6:]
-        if status == "ok" and op.get("undo_of") is not None and op["undo_of"] == i - 1 and self.snap_two_back is not None:
+        prev_op_i, self.prev_op_i = getattr(self, "prev_op_i", None), op.get("i", i)
+        # (recorded op numbers, not positions: a minimised history must not turn "undo of 3" into "undo of its neighbour")
+        if (status == "ok" and op.get("undo_of") is not None and op["undo_of"] == prev_op_i
+                and self.snap_two_back is not None):
             # "undoing an edit restores the previous footprints": compare with the snapshot taken before that edit
             now = C.calc_snapshot(sim.world, [n for n in S.closure(sim.spec)])
             d = C.diff_snapshots(self.snap_two_back, now, self.cls_of)
